@@ -22,6 +22,7 @@ package gen
 
 import (
 	"fmt"
+	"go/types"
 
 	"go.uber.org/thriftrw/internal/goast"
 )
@@ -85,8 +86,9 @@ func (n *namespace) isTaken(name string) bool {
 	if n.parent != nil {
 		return n.parent.isTaken(name)
 	}
-	// A package cannot be imported as "init".
-	return goast.IsReservedKeyword(name) || name == "init"
+	// A package cannot be imported as "init", and a name that shadows a
+	// predeclared identifier (int32, nil, len, ...) breaks the code around it.
+	return goast.IsReservedKeyword(name) || name == "init" || types.Universe.Lookup(name) != nil
 }
 
 func (n *namespace) NewName(base string) string {
